@@ -214,3 +214,266 @@ def gunzip_strict(data: bytes) -> bytes:
             raise RefError("truncated gzip stream")
         data = d.unused_data
     return bytes(out)
+
+
+# =========================================================================== request side
+# Reference reader for a client->server byte stream: strict RFC 9112 plus the leniencies Tornado
+# documents (bare-LF line ends, obs-fold continuation lines, one leading blank line).  Three-valued:
+# every message is ACCEPT (fully determined), REJECT, or EITHER (RFC and Tornado's documented
+# behaviour legitimately differ / the property statement is silent).
+
+HOST_CHARS = set(b"ABCDEFGHIJKLMNOPQRSTUVWXYZabcdefghijklmnopqrstuvwxyz0123456789-._~!$&'()*+;=[]:")
+
+
+class Request:
+    def __init__(self):
+        self.method = self.target = self.version = None
+        self.headers = []  # (name, value) latin-1 str, in order, obs-fold unfolded
+        self.body = b""
+        self.framing = "none"
+        self.persistent = True
+        self.expect_continue = False
+        self.start = self.end = 0
+
+    def as_tuple(self):
+        return (self.method, self.target, self.version, [(n.lower(), v) for n, v in self.headers], self.body)
+
+    def __repr__(self):
+        return "<Request %s %s %s %s body=%r>" % (self.method, self.target, self.version, self.headers, self.body[:40])
+
+
+class Verdict:
+    """state: end | incomplete | reject | either ; why: short reason"""
+
+    def __init__(self, state, why="", pos=0):
+        self.state, self.why, self.pos = state, why, pos
+
+    def __repr__(self):
+        return "<%s %s @%d>" % (self.state, self.why, self.pos)
+
+
+def valid_host(v: bytes) -> bool:
+    i = 0
+    while i < len(v):
+        c = v[i]
+        if c == 0x25:  # %
+            if len(v) < i + 3 or v[i + 1] not in HEXD or v[i + 2] not in HEXD:
+                return False
+            i += 3
+            continue
+        if c not in HOST_CHARS:
+            return False
+        i += 1
+    return True
+
+
+def _find_head_end(data, pos):
+    """Earliest end of a header block: LF followed by LF or CRLF.  Returns (idx_of_first_LF, idx_after)."""
+    i = data.find(b"\n", pos)
+    while i >= 0:
+        if data[i + 1 : i + 2] == b"\n":
+            return i, i + 2
+        if data[i + 1 : i + 3] == b"\r\n":
+            return i, i + 3
+        if i + 1 >= len(data) or (data[i + 1 : i + 2] == b"\r" and i + 2 >= len(data)):
+            return None
+        i = data.find(b"\n", i + 1)
+    return None
+
+
+def read_requests(data: bytes, host_check=True, max_chunk_line=64):
+    """-> (list[Request], Verdict).  The verdict describes what follows the accepted requests."""
+    out = []
+    pos = 0
+    n = len(data)
+    while True:
+        if pos >= n:
+            return out, Verdict("end", "", pos)
+        start = pos
+        # --- leading blank lines
+        blanks = 0
+        p = pos
+        while True:
+            if data[p : p + 2] == b"\r\n":
+                p += 2
+                blanks += 1
+            elif data[p : p + 1] == b"\n":
+                p += 1
+                blanks += 1
+            else:
+                break
+        if blanks >= 2:
+            return out, Verdict("either", "two or more leading blank lines", pos)
+        if p >= n:
+            return out, Verdict("incomplete", "only blank line so far", pos)
+        if data[p : p + 1] == b"\r" and p + 1 >= n:
+            return out, Verdict("incomplete", "dangling CR", pos)
+        he = _find_head_end(data, p)
+        if he is None:
+            return out, Verdict("incomplete", "header block not complete", pos)
+        first_lf, after = he
+        raw_lines = data[p : first_lf + 1].split(b"\n")[:-1]
+        lines = [ln[:-1] if ln.endswith(b"\r") else ln for ln in raw_lines]
+        r = Request()
+        r.start = start
+        # --- request line
+        rl = lines[0]
+        parts = rl.split(b" ")
+        if len(parts) != 3:
+            return out, Verdict("reject", "request line does not have three SP-separated parts", pos)
+        m, t, v = parts
+        if not is_token(m):
+            return out, Verdict("reject", "method is not a token", pos)
+        if not t or any(not (0x21 <= c <= 0x7E or c >= 0x80) for c in t):
+            return out, Verdict("reject", "request-target has control/whitespace or is empty", pos)
+        if len(v) != 8 or v[:5] != b"HTTP/" or v[5] not in DIGITS or v[6:7] != b"." or v[7] not in DIGITS:
+            return out, Verdict("reject", "malformed HTTP-version", pos)
+        if v[5:6] != b"1":
+            return out, Verdict("reject", "unsupported major version", pos)
+        if v not in (b"HTTP/1.0", b"HTTP/1.1"):
+            return out, Verdict("either", "HTTP/1.x minor version other than 0/1", pos)
+        r.method, r.target, r.version = m.decode("latin-1"), t.decode("latin-1"), v.decode()
+        # --- header fields
+        fields = []
+        for ln in lines[1:]:
+            if ln[:1] in (b" ", b"\t"):
+                if not fields:
+                    return out, Verdict("reject", "first header line starts with whitespace", pos)
+                cont = ln.strip(b" \t")
+                if not is_field_value(cont):
+                    return out, Verdict("reject", "invalid continuation content", pos)
+                name, val = fields[-1]
+                fields[-1] = (name, (val + b" " + cont).strip(b" \t"))
+                continue
+            if b":" not in ln:
+                return out, Verdict("reject", "header line without colon", pos)
+            name, _, val = ln.partition(b":")
+            if not is_token(name):
+                return out, Verdict("reject", "field name is not a token", pos)
+            val = val.strip(b" \t")
+            if not is_field_value(val):
+                return out, Verdict("reject", "invalid field value", pos)
+            fields.append((name, val))
+        r.headers = [(a.decode("latin-1"), b.decode("latin-1")) for a, b in fields]
+
+        def vals(nm):
+            return [b for a, b in fields if a.lower() == nm]
+
+        # --- Host
+        if host_check:
+            hosts = vals(b"host")
+            if r.version == "HTTP/1.1" and not hosts:
+                return out, Verdict("reject", "missing Host", pos)
+            if len(hosts) > 1:
+                return out, Verdict("reject", "multiple Host", pos)
+            if hosts:
+                if b"," in hosts[0]:
+                    return out, Verdict("reject", "comma in Host", pos)
+                hv = hosts[0]
+                hostpart = hv
+                if not valid_host(hostpart):
+                    return out, Verdict("reject", "invalid Host", pos)
+        # --- framing
+        te = vals(b"transfer-encoding")
+        cls = vals(b"content-length")
+        cl = None
+        if cls:
+            items = []
+            for x in cls:
+                items.extend(x.split(b","))
+            stripped = [i.strip(b" \t") for i in items]
+            if any(i != j.lstrip(b" \t") for i, j in zip(stripped, items)):
+                # OWS before a comma: legal list syntax that Tornado treats as unequal
+                weird = True
+            else:
+                weird = False
+            for it in stripped:
+                if not it or any(c not in DIGITS for c in it):
+                    return out, Verdict("reject", "non-numeric Content-Length", pos)
+            if len(set(stripped)) != 1:
+                return out, Verdict("reject", "conflicting Content-Length", pos)
+            if weird:
+                return out, Verdict("either", "Content-Length list with OWS before comma", pos)
+            if len(stripped[0]) > 9:
+                return out, Verdict("either", "Content-Length beyond any configured body limit", pos)
+            cl = int(stripped[0])
+        if te:
+            if cls:
+                return out, Verdict("reject", "Content-Length together with Transfer-Encoding", pos)
+            tev = b",".join(te)
+            if tev.lower() != b"chunked":
+                return out, Verdict("reject", "transfer coding other than chunked", pos)
+            if r.version == "HTTP/1.0":
+                return out, Verdict("either", "Transfer-Encoding in an HTTP/1.0 message", pos)
+        exp = vals(b"expect")
+        r.expect_continue = any(e.lower() == b"100-continue" for e in exp)
+        body_pos = after
+        if te:
+            r.framing = "chunked"
+            body = bytearray()
+            q = body_pos
+            while True:
+                eol = data.find(b"\r\n", q)
+                lf = data.find(b"\n", q)
+                if lf >= 0 and (eol < 0 or lf < eol):
+                    return out, Verdict("reject", "chunk-size line terminated by bare LF", pos)
+                if eol < 0:
+                    if n - q > max_chunk_line:
+                        return out, Verdict("either", "over-long unterminated chunk-size line", pos)
+                    return out, Verdict("incomplete", "chunk-size line not complete", pos)
+                line = data[q:eol]
+                if b";" in line:
+                    return out, Verdict("either", "chunk extension", pos)
+                if not line or any(c not in HEXD for c in line):
+                    return out, Verdict("reject", "malformed chunk size", pos)
+                if len(line) + 2 > max_chunk_line:
+                    return out, Verdict("either", "chunk-size line longer than the reader's line limit", pos)
+                size = int(line, 16)
+                q = eol + 2
+                if size == 0:
+                    if n < q + 2:
+                        if data[q:n] in (b"", b"\r"):
+                            return out, Verdict("incomplete", "final CRLF not complete", pos)
+                    if data[q : q + 2] == b"\r\n":
+                        q += 2
+                        break
+                    if n < q + 2:
+                        return out, Verdict("either", "trailer section (incomplete)", pos)
+                    return out, Verdict("either", "trailer section or malformed terminator", pos)
+                if n < q + size:
+                    body += data[q:n]
+                    return out, Verdict("incomplete", "chunk data not complete", pos)
+                body += data[q : q + size]
+                q += size
+                if n < q + 2:
+                    if data[q:n] in (b"", b"\r"):
+                        return out, Verdict("incomplete", "chunk terminator not complete", pos)
+                    return out, Verdict("reject", "malformed chunk terminator", pos)
+                if data[q : q + 2] != b"\r\n":
+                    return out, Verdict("reject", "malformed chunk terminator", pos)
+                q += 2
+            r.body = bytes(body)
+            pos = q
+        elif cl is not None:
+            r.framing = "cl"
+            if n < body_pos + cl:
+                return out, Verdict("incomplete", "Content-Length body not complete", pos)
+            r.body = data[body_pos : body_pos + cl]
+            pos = body_pos + cl
+        else:
+            pos = body_pos
+        # --- persistence (RFC 9112 section 9.3 as Tornado documents it: whole-value comparison)
+        conn = [c.lower() for c in vals(b"connection")]
+        connv = b",".join(conn)
+        if r.version == "HTTP/1.1":
+            r.persistent = connv != b"close"
+            r.persistence_either = (b"close" in connv and connv != b"close")
+        else:
+            r.persistent = connv == b"keep-alive" and (r.framing != "none" or r.method in ("GET", "HEAD"))
+            r.persistence_either = (b"keep-alive" in connv and connv != b"keep-alive")
+        r.end = pos
+        out.append(r)
+        if r.persistence_either:
+            return out, Verdict("either", "multi-token Connection header", pos)
+        if not r.persistent:
+            return out, Verdict("end", "connection not persistent after this request", pos)
